@@ -4,6 +4,7 @@ import XV.Lemmas.InvTable
 import XV.Lemmas.InvBlock
 import XV.Lemmas.InvList
 import XV.Lemmas.InvLive
+import XV.Lemmas.InvLedger
 /-!
 C02 — token conservation: supply changes only by coinbase, every token is in one place.
 Theorems about the UTXO table of the L1 chain model. `sumU` is the sum of all rows of table "U";
@@ -1427,5 +1428,263 @@ theorem PoolLive_no_double_spend (e : Env) (s : St) (hinv : PoolLive e s) :
     ∀ i ∈ s.pool, ∀ j ∈ s.pool, i ≠ j →
       ∀ r ∈ (e.tx i).ins, ∀ r' ∈ (e.tx j).ins, (r.tx, r.off) ≠ (r'.tx, r'.off) :=
   hinv.live.disjoint
+
+-- ================================================================ the ledger invariant: reachable states, no freshness hypotheses
+
+/-- supply created by the confirmed transactions: the materialised outputs of the coinbase ones (genesis, awards) -/
+def coinbasePaid (e : Env) (C : List Nat) : Int :=
+  (C.map (fun i => if (e.tx i).coinbase then paidOf (e.tx i).outs else 0)).sum
+
+/-- the ledger invariant of `XV.Lemmas.InvLedger` (ghost log: confirmed `C`, pending `P`) with sums: one row per key;
+pending transactions are not coinbase; a confirmed coinbase has no inputs and no fee; non-coinbase transactions are
+balanced in the amounts they cite; **conservation** `Σ U + pending fees = total`; **supply** `total = Σ coinbase outputs
+of the confirmed transactions` -/
+structure LedSum (e : Env) (s : St) (C P : List Nat) : Prop where
+  nodupU : UNodup s.U
+  led : Led e s.U C P
+  poolNonCoinbase : ∀ i ∈ P, (e.tx i).coinbase = false
+  awardShape : ∀ i ∈ C, (e.tx i).coinbase = true → (e.tx i).ins = [] ∧ feeOf (e.tx i).outs = 0
+  balanced : ∀ i ∈ C ++ P, (e.tx i).coinbase = false → insAmt (e.tx i).ins = (outSum (e.tx i).outs : Int)
+  conservation : sumU s.U + poolFees e P = s.total
+  supply : s.total = coinbasePaid e C
+
+/-- **the reachable-state invariant**: the state is explained by the confirmed log `C` and the pool -/
+def Ledger (e : Env) (s : St) (C : List Nat) : Prop := LedSum e s C s.pool
+
+theorem LedSum.congr {e : Env} {s s' : St} {C P : List Nat} (h : LedSum e s C P) (hU : s'.U = s.U)
+    (hT : s'.total = s.total) : LedSum e s' C P :=
+  ⟨by rw [hU]; exact h.nodupU, by rw [hU]; exact h.led, h.poolNonCoinbase, h.awardShape, h.balanced,
+   by rw [hU, hT]; exact h.conservation, by rw [hT]; exact h.supply⟩
+
+/-- the initial state (nothing applied) satisfies the invariant with an empty log -/
+theorem Ledger_genesis (e : Env) : Ledger e {} [] := by
+  refine ⟨by unfold UNodup; simp, Led_empty e, ?_, ?_, ?_, ?_, ?_⟩
+  · intro i hi; cases hi
+  · intro i hi; cases hi
+  · intro i hi; cases hi
+  · simp [sumU, poolFees]
+  · simp [coinbasePaid]
+
+theorem Ledger.toPoolInv {e : Env} {s : St} {C : List Nat} (h : Ledger e s C) : PoolInv e s :=
+  ⟨h.nodupU, (List.nodup_append.mp h.led.nodupA).2.1, h.poolNonCoinbase,
+   fun i hi => h.led.insSpent i (List.mem_append_right _ hi), h.conservation⟩
+
+theorem coinbasePaid_append (e : Env) (a b : List Nat) : coinbasePaid e (a ++ b) = coinbasePaid e a + coinbasePaid e b := by
+  unfold coinbasePaid; simp [List.sum_append]
+
+theorem applied_of_Led (e : Env) (s : St) (C P : List Nat) (t : Nat) (hl : Led e s.U C P) (ht : t ∈ C ++ P)
+    (hnc : ∀ j ∈ C ++ P, ∀ r ∈ (e.tx j).ins, r.tx ≠ t) : Applied s (e.tx t) := by
+  have hidt := hl.idEq t ht
+  refine ⟨?_, hl.insSpent t ht, hl.insNodup t ht, by rw [hidt]; exact hl.noSelf t ht⟩
+  intro idx o ho hm
+  obtain ⟨hm', ha⟩ := matSlot_of_get (e.tx t) idx o ho hm
+  rcases hl.outs t ht idx (Or.inl hm') with ⟨u, hu, hamt⟩ | ⟨j, hj, r, hr, hrt, _⟩
+  · rw [hidt]; exact ⟨u, hu, by rw [hamt, ha]⟩
+  · exact absurd hrt (hnc j hj r hr)
+
+/-- S1 — a pending transaction is admitted -/
+theorem LedSum_addPending (e : Env) (s : St) (lh : Int) (C P : List Nat) (i : Nat) (h : LedSum e s C P)
+    (hnot : i ∉ C ++ P) (hid : (e.tx i).id = i) (hcb : (e.tx i).coinbase = false)
+    (hadm : admitTx s lh (e.tx i) = .ok) :
+    LedSum e (applyTx s (e.tx i)) C (P ++ [i]) := by
+  obtain ⟨hcur, hnd, _, _⟩ := XV.C03.admit_sound s lh (e.tx i) hadm
+  have hfresh := h.led.noRow i hnot
+  obtain ⟨c1, c2, c3⟩ := applyTx_conserves s lh (e.tx i) hadm h.nodupU (by rw [hid]; exact hfresh) hcb
+  have hL := Led_addPending e s C P i h.led hnot hid hnd
+    (fun r hr => by obtain ⟨u, hu, _, hamt, _⟩ := hcur r hr; exact ⟨u, hu, hamt⟩)
+  refine ⟨c1, hL, ?_, h.awardShape, ?_, ?_, by rw [c3]; exact h.supply⟩
+  · intro j hj
+    rcases List.mem_append.mp hj with hj | hj
+    · exact h.poolNonCoinbase j hj
+    · simp only [List.mem_cons, List.not_mem_nil, or_false] at hj; rw [hj]; exact hcb
+  · intro j hj hjc
+    rw [← List.append_assoc] at hj
+    rcases List.mem_append.mp hj with hj | hj
+    · exact h.balanced j hj hjc
+    · simp only [List.mem_cons, List.not_mem_nil, or_false] at hj; rw [hj]
+      exact admitted_insAmt s lh (e.tx i) hadm hcb
+  · rw [poolFees_append, c3]
+    have := h.conservation
+    simp only [poolFees, List.map_cons, List.map_nil, List.sum_cons, List.sum_nil] at this ⊢
+    omega
+
+/-- S2 — a pending transaction is confirmed: its fee moves from "pending" to the proposer's rows -/
+theorem LedSum_confirmPending (e : Env) (s : St) (prop : String) (C P : List Nat) (i : Nat) (h : LedSum e s C P)
+    (hi : i ∈ P) (hnp : ∀ r ∈ (e.tx i).ins, r.tx ∉ P) :
+    LedSum e (payFee (e.tx i) prop (e.tx i).outs 0 s) (C ++ [i]) (P.filter (fun x => x != i)) := by
+  have hl := h.led
+  have hiA : i ∈ C ++ P := List.mem_append_right _ hi
+  have hid := hl.idEq i hiA
+  have hiC : i ∉ C := fun hc => (List.nodup_append.mp hl.nodupA).2.2 i hc i hi rfl
+  have hcb := h.poolNonCoinbase i hi
+  obtain ⟨p1, p2, p3⟩ := confirmPool_sum (e.tx i) prop s h.nodupU (fun idx hf => by
+    rw [hid]
+    cases hlk : lookup s.U (i, idx) with
+    | none => rfl
+    | some u =>
+      rcases (hl.rows i idx u hlk).2 with hm | ⟨hc, _⟩
+      · rw [feeSlot_matSlot _ _ hm] at hf; cases hf
+      · exact absurd hc hiC)
+  have hL := Led_confirmPending e s prop C P i hl hi hnp
+  have hmemA : ∀ x, x ∈ (C ++ [i]) ++ P.filter (fun x => x != i) → x ∈ C ++ P := by
+    intro x hx
+    simp only [List.mem_append, List.mem_cons, List.not_mem_nil, or_false, List.mem_filter] at hx ⊢
+    rcases hx with (hx | hx) | ⟨hx, _⟩
+    · exact Or.inl hx
+    · rw [hx]; exact Or.inr hi
+    · exact Or.inr hx
+  refine ⟨p1, hL, ?_, ?_, ?_, ?_, ?_⟩
+  · intro j hj; exact h.poolNonCoinbase j (List.mem_filter.mp hj).1
+  · intro j hj hjc
+    rcases List.mem_append.mp hj with hj | hj
+    · exact h.awardShape j hj hjc
+    · simp only [List.mem_cons, List.not_mem_nil, or_false] at hj
+      rw [hj, hcb] at hjc; cases hjc
+  · intro j hj hjc; exact h.balanced j (hmemA j hj) hjc
+  · have hsplit : poolFees e P = feeOf (e.tx i).outs + poolFees e (P.filter (fun x => x != i)) :=
+      XV.InvList.sum_filter_ne _ P i (List.nodup_append.mp hl.nodupA).2.1 hi
+    have := h.conservation
+    rw [p2, p3]; omega
+  · rw [p3, coinbasePaid_append, h.supply]
+    simp [coinbasePaid, hcb]
+
+theorem filter_ne_append_self (P : List Nat) (i : Nat) (hi : i ∉ P) : (P ++ [i]).filter (fun x => x != i) = P := by
+  rw [List.filter_append]
+  have h1 : P.filter (fun x => x != i) = P := by
+    apply List.filter_eq_self.mpr
+    intro a ha
+    simp only [bne_iff_ne, ne_eq]
+    intro e2; exact hi (e2 ▸ ha)
+  rw [h1]
+  simp
+
+/-- S3 — a transaction that was not pending is confirmed (admission, application, fee payment). A coinbase has no inputs and no fee. -/
+theorem LedSum_confirmNew (e : Env) (s : St) (lh : Int) (prop : String) (C P : List Nat) (i : Nat)
+    (h : LedSum e s C P) (hnot : i ∉ C ++ P) (hid : (e.tx i).id = i)
+    (hadm : admitTx s lh (e.tx i) = .ok)
+    (hcb : (e.tx i).coinbase = true → (e.tx i).ins = [] ∧ feeOf (e.tx i).outs = 0)
+    (hnp : ∀ r ∈ (e.tx i).ins, r.tx ∉ P) :
+    LedSum e (payFee (e.tx i) prop (e.tx i).outs 0 (applyTx s (e.tx i))) (C ++ [i]) P := by
+  obtain ⟨hcur, hnd, _, _⟩ := XV.C03.admit_sound s lh (e.tx i) hadm
+  have hfresh := h.led.noRow i hnot
+  have hiP : i ∉ P := fun hp => hnot (List.mem_append_right _ hp)
+  have hL1 := Led_addPending e s C P i h.led hnot hid hnd
+    (fun r hr => by obtain ⟨u, hu, _, hamt, _⟩ := hcur r hr; exact ⟨u, hu, hamt⟩)
+  have hiA1 : i ∈ C ++ (P ++ [i]) := by simp
+  have hself := hL1.noSelf i hiA1
+  have hL2 := Led_confirmPending e (applyTx s (e.tx i)) prop C (P ++ [i]) i hL1 (by simp)
+    (fun r hr hm => by
+      rcases List.mem_append.mp hm with hm | hm
+      · exact hnp r hr hm
+      · simp only [List.mem_cons, List.not_mem_nil, or_false] at hm; exact hself r hr hm)
+  rw [filter_ne_append_self P i hiP] at hL2
+  obtain ⟨n1, n2⟩ := confirmNew_sum s lh (e.tx i) prop hadm h.nodupU (by rw [hid]; exact hfresh)
+    (by rw [hid]; exact hself) hcb
+  have htot : (payFee (e.tx i) prop (e.tx i).outs 0 (applyTx s (e.tx i))).total =
+      s.total + (if (e.tx i).coinbase then paidOf (e.tx i).outs else 0) := by
+    rw [(payFee_frame (e.tx i) prop (e.tx i).outs 0 (applyTx s (e.tx i))).2.2.1]
+    by_cases hc : (e.tx i).coinbase = true
+    · rw [(applyTx_coinbase s (e.tx i) h.nodupU (by rw [hid]; exact hfresh) hc (hcb hc).1).2.2]
+      simp [hc]
+    · have hc' : (e.tx i).coinbase = false := by simpa using hc
+      rw [(applyTx_conserves s lh (e.tx i) hadm h.nodupU (by rw [hid]; exact hfresh) hc').2.2]
+      simp [hc']
+  refine ⟨n1, hL2, h.poolNonCoinbase, ?_, ?_, ?_, ?_⟩
+  · intro j hj hjc
+    rcases List.mem_append.mp hj with hj | hj
+    · exact h.awardShape j hj hjc
+    · simp only [List.mem_cons, List.not_mem_nil, or_false] at hj
+      rw [hj] at hjc ⊢; exact hcb hjc
+  · intro j hj hjc
+    have : j ∈ C ++ P ∨ j = i := by
+      simp only [List.mem_append, List.mem_cons, List.not_mem_nil, or_false] at hj ⊢
+      rcases hj with (hj | hj) | hj
+      · exact Or.inl (Or.inl hj)
+      · exact Or.inr hj
+      · exact Or.inl (Or.inr hj)
+    rcases this with hj' | hj'
+    · exact h.balanced j hj' hjc
+    · rw [hj'] at hjc ⊢; exact admitted_insAmt s lh (e.tx i) hadm hjc
+  · have := h.conservation
+    omega
+  · rw [htot, coinbasePaid_append, h.supply]
+    simp [coinbasePaid]
+
+/-- S4 — a pending transaction that nobody cites is undone -/
+theorem LedSum_undoPending (e : Env) (s : St) (C P : List Nat) (t : Nat) (h : LedSum e s C P) (ht : t ∈ P)
+    (hnc : ∀ j ∈ C ++ P, ∀ r ∈ (e.tx j).ins, r.tx ≠ t) :
+    LedSum e (undoTx e s (e.tx t)) C (P.filter (fun x => x != t)) := by
+  have hl := h.led
+  have htA : t ∈ C ++ P := List.mem_append_right _ ht
+  have hcb := h.poolNonCoinbase t ht
+  obtain ⟨n1, n2, n3⟩ := undoTx_sum e s (e.tx t) h.nodupU (applied_of_Led e s C P t hl htA hnc)
+  have hsplit : poolFees e P = feeOf (e.tx t).outs + poolFees e (P.filter (fun x => x != t)) :=
+    XV.InvList.sum_filter_ne _ P t (List.nodup_append.mp hl.nodupA).2.1 ht
+  have hbal := h.balanced t htA hcb
+  have hos := outSum_split (e.tx t).outs
+  have hcons := h.conservation
+  have htot : (undoTx e s (e.tx t)).total = s.total := by
+    rw [n3]; simp [hcb]
+  refine ⟨n1, Led_undoPending e s C P t hl ht hnc, ?_, h.awardShape, ?_, ?_, by rw [htot]; exact h.supply⟩
+  · intro j hj; exact h.poolNonCoinbase j (List.mem_filter.mp hj).1
+  · intro j hj hjc
+    apply h.balanced j _ hjc
+    rcases List.mem_append.mp hj with hj | hj
+    · exact List.mem_append_left _ hj
+    · exact List.mem_append_right _ (List.mem_filter.mp hj).1
+  · rw [n2, htot]; omega
+
+theorem matSlot_false_of_feeSlot (t : Tx) (idx : Nat) (h : feeSlot t idx = true) : matSlot t idx = false := by
+  cases hm : matSlot t idx
+  · rfl
+  · rw [feeSlot_matSlot t idx hm] at h; cases h
+
+/-- S5 — a confirmed transaction that nobody cites is undone (the transaction, then its fee) -/
+theorem LedSum_undoConfirmed (e : Env) (s : St) (C P : List Nat) (t : Nat) (h : LedSum e s C P) (ht : t ∈ C)
+    (hnc : ∀ j ∈ C ++ P, ∀ r ∈ (e.tx j).ins, r.tx ≠ t) :
+    LedSum e (undoPayFee (e.tx t) (e.tx t).outs 0 (undoTx e s (e.tx t))) (C.filter (fun x => x != t)) P := by
+  have hl := h.led
+  have htA : t ∈ C ++ P := List.mem_append_left _ ht
+  have hid := hl.idEq t htA
+  have hself : ∀ r ∈ (e.tx t).ins, r.tx ≠ (e.tx t).id := by rw [hid]; exact hl.noSelf t htA
+  obtain ⟨n1, n2, n3⟩ := undoTx_sum e s (e.tx t) h.nodupU (applied_of_Led e s C P t hl htA hnc)
+  obtain ⟨f1, f2⟩ := undoPayFee_sum (e.tx t) (e.tx t).outs 0 (undoTx e s (e.tx t)) n1
+    (fun idx o ho hd => by
+      simp only [Nat.zero_add]
+      have hf : feeSlot (e.tx t) idx = true := feeSlot_of_get (e.tx t) idx o ho hd
+      rw [undoTx_lookup_nonmat e s (e.tx t) idx hself (matSlot_false_of_feeSlot _ _ hf), hid]
+      rcases hl.outs t htA idx (Or.inr ⟨ht, hf⟩) with ⟨u, hu, hamt⟩ | ⟨j, hj, r, hr, hrt, _⟩
+      · refine ⟨u, hu, ?_⟩
+        rw [hamt]; unfold slotAmt; rw [ho]
+      · exact absurd hrt (hnc j hj r hr))
+  have hft : (undoPayFee (e.tx t) (e.tx t).outs 0 (undoTx e s (e.tx t))).total = (undoTx e s (e.tx t)).total :=
+    (undoPayFee_frame (e.tx t) (e.tx t).outs 0 (undoTx e s (e.tx t))).2.2.1
+  have hsplit : coinbasePaid e C = (if (e.tx t).coinbase then paidOf (e.tx t).outs else 0) +
+      coinbasePaid e (C.filter (fun x => x != t)) :=
+    XV.InvList.sum_filter_ne _ C t (List.nodup_append.mp hl.nodupA).1 ht
+  have hos := outSum_split (e.tx t).outs
+  have hcons := h.conservation
+  have hsup := h.supply
+  refine ⟨f1, Led_undoConfirmed e s C P t hl ht hnc, h.poolNonCoinbase, ?_, ?_, ?_, ?_⟩
+  · intro j hj hjc; exact h.awardShape j (List.mem_filter.mp hj).1 hjc
+  · intro j hj hjc
+    apply h.balanced j _ hjc
+    rcases List.mem_append.mp hj with hj | hj
+    · exact List.mem_append_left _ (List.mem_filter.mp hj).1
+    · exact List.mem_append_right _ hj
+  · rw [f2, hft, n2, n3]
+    by_cases hc : (e.tx t).coinbase = true
+    · obtain ⟨a1, a2⟩ := h.awardShape t ht hc
+      simp only [hc, ↓reduceIte, a1, a2, insAmt, List.map_nil, List.sum_nil]
+      omega
+    · have hc' : (e.tx t).coinbase = false := by simpa using hc
+      have hbal := h.balanced t htA hc'
+      simp only [hc', Bool.false_eq_true, ↓reduceIte]
+      omega
+  · rw [hft, n3]
+    by_cases hc : (e.tx t).coinbase = true
+    · simp only [hc, ↓reduceIte] at hsplit ⊢; omega
+    · have hc' : (e.tx t).coinbase = false := by simpa using hc
+      simp only [hc', Bool.false_eq_true, ↓reduceIte] at hsplit ⊢; omega
 
 end XV.C02
